@@ -15,7 +15,7 @@ fn alphabet() -> Vec<Op> {
     use Op::*;
     vec![
         Recip, Sqrt, Cbrt, Exp, Exp2, ExpM1, Ln, Log(2.5), Log(2.0), Log(10.0), Log2, Log10, Ln1p, Sin, Cos, SinCosS, SinCosC, Tan, Asin, Acos, Atan, Sinh, Cosh,
-        Tanh, Asinh, Acosh, Atanh, SphJ0, SphJ1, SphJ2, Abs, Signum, Neg, Inv, Powi(-2), Powi(0), Powi(1), Powi(2), Powi(3), Powi(5), Powf(0.0),
+        Tanh, Asinh, Acosh, Atanh, SphJ0, SphJ1, SphJ2, Abs, Signum, Neg, Inv, Powi(-2), Powi(0), Powi(1), Powi(2), Powi(3), Powi(5), Powi(-10), Powi(-100), Powi(64), Powf(-30.5), Powf(0.0),
         Powf(1.0), Powf(2.0), Powf(0.5), Powf(2.5), Powf(-1.5), AddF(0.75), SubF(0.75), MulF(-1.5), DivF(2.0), AddAF(0.75), SubAF(0.75), MulAF(-1.5),
         DivAF(2.0), Add, Sub, Mul, Div, AddA, SubA, MulA, DivA, AddRef, SubRef, MulRef, DivRef, Atan2, Powd, AbsSub, MulAdd, Sum(2), Product(2),
     ]
@@ -27,8 +27,8 @@ fn single_call(op: Op) -> bool {
     matches!(
         op.canonical(),
         Recip | Sqrt | Cbrt | Exp | Exp2 | ExpM1 | Ln | Log(_) | Log2 | Log10 | Ln1p | Sin | Cos | SinCosS | SinCosC | Asin | Acos | Atan | Sinh | Cosh | Asinh | Acosh
-            | Atanh | Abs | Signum | Neg | Powi(0) | Powi(1) | Powf(_) | AddF(_) | SubF(_) | MulF(_) | DivF(_) | Add | Sub | Mul | Atan2 | AbsSub | Sum(_) | Product(_)
-    ) && !matches!(op, Powf(p) if p == 2.0)
+            | Atanh | Abs | Signum | Neg | Powi(_) | Powf(_) | AddF(_) | SubF(_) | MulF(_) | DivF(_) | Add | Sub | Mul | Atan2 | AbsSub | Sum(_) | Product(_)
+    ) && !matches!(op, Powf(p) if p == 2.0) && !matches!(op, Powi(2))
 }
 
 fn real_points(op: Op) -> Vec<Vec<f64>> {
